@@ -4,6 +4,7 @@ compute(), the observed layout and the layout of a fresh engine on fresh labels.
 
 stdin : {"histories": [[action, ...], ...]?, "random": {"seed", "count"}?, "sets": {...}?}
 actions: "N:A" "N:B" "N:PA" "N:PB" (set labels; P* = permuted presentation of the same objects),
+         "M:A" "M:B" (the label OBJECTS of a set get their other measurements assigned: width / idealPos),
          "O:d1".."O:d5" (set_options delta), "C" (compute), "F:A" "F:B" (another engine lays them out)
 """
 import json
@@ -23,6 +24,13 @@ KEYMAP = {"mx": "maxPos", "mn": "minPos", "ns": "nodeSpacing", "alg": "algorithm
 DEFAULT_SETS = {
     "A": [[1, 2], [1.5, 2], [2, 1], [2, 1], [4.5, 3.5]],
     "B": [[0, 1], [4, 2], [4, 2], [4.5, 1]],
+}
+
+
+# the second measurement of the default label sets (widths re-measured, one label moved); ties still share a width
+DEFAULT_SETS2 = {
+    "A": [[1, 1], [1.5, 2], [2, 3.5], [2, 3.5], [5, 2]],
+    "B": [[0, 2], [4, 1], [4, 1], [3.5, 1]],
 }
 
 
@@ -123,7 +131,10 @@ class Pristine(object):
 PRISTINE = None
 
 
-def play(history, sets, perms, scale):
+def play(history, sets, perms, scale, sets2=None):
+    sets2 = sets2 or sets
+    ver = {k: 1 for k in sets}
+    cur = lambda k: sets[k] if ver[k] == 1 else sets2[k]
     objs = {k: fresh_nodes(v) for k, v in sets.items()}
     f = Force()
     f.set_options(to_force_opts(OPT0, scale))
@@ -144,6 +155,12 @@ def play(history, sets, perms, scale):
             d = DELTAS[a[2:]]
             f.set_options(to_force_opts(d, scale))
             acc.update(d)
+        elif a.startswith("M:"):
+            k = a[2:]
+            ver[k] = 3 - ver[k]
+            for node, (pos, w) in zip(objs[k], cur(k)):
+                node.idealPos = pos
+                node.width = w
         elif a.startswith("F:"):
             g = Force({"maxPos": 6 * scale, "algorithm": "simple", "nodeSpacing": 0, "stubWidth": 2})
             g.nodes(list(reversed(objs[a[2:]])))
@@ -156,17 +173,17 @@ def play(history, sets, perms, scale):
                 f.compute()
                 res = projection(lst)
                 g = Force(to_force_opts(acc, scale))
-                fresh = fresh_nodes(sets[base])
+                fresh = fresh_nodes(cur(base))
                 g.nodes(fresh)
                 g.compute()
                 ref = projection(fresh)
             except Exception as ex:  # totality is C11's matter; here it is reported, not hidden
                 err = type(ex).__name__
-            ref0 = PRISTINE.layout(sets[base], to_force_opts(acc, scale)) if PRISTINE is not None else {"ref": ref, "err": ""}
-            e.update({"res": res, "ref": ref, "err": err, "ref0": ref0["ref"], "err0": ref0["err"],
+            ref0 = PRISTINE.layout(cur(base), to_force_opts(acc, scale)) if PRISTINE is not None else {"ref": ref, "err": ""}
+            e.update({"res": res, "ref": ref, "err": err, "ref0": ref0["ref"], "err0": ref0["err"], "ver": ver[base],
                       "cfg": {"base": base, "mx": acc["mx"], "mn": acc["mn"], "ns": acc["ns"], "alg": acc["alg"], "sw": acc["sw"], "dn": acc["dn"]}})
         ev.append(e)
-    return {"ev": ev, "sets": sets, "scale": scale}
+    return {"ev": ev, "sets": sets, "sets2": sets2, "scale": scale}
 
 
 def half(rng, lo, hi):
@@ -189,17 +206,33 @@ def random_case(rng):
         for lab in labels:
             lab[1] = first.setdefault(lab[0], lab[1])
         sets[name] = labels
+    # second measurement: about half of the labels get another width, a few move; ties (before and after) share a width
+    sets2 = {}
+    for name in ("A", "B"):
+        labels2 = []
+        for pos, w in sets[name]:
+            r = random.Random("%r/%r/%r" % (pos, w, scale))          # the same change for labels that are interchangeable
+            if r.random() < 0.5:
+                w = r.choice([0.5, 1, 2, 3.5, 6])
+            if r.random() < 0.2:
+                pos = pos + r.choice([-1.5, 0.5, 3]) * scale
+            labels2.append([pos, w])
+        first = {}
+        for lab in labels2:
+            lab[1] = first.setdefault(lab[0], lab[1])
+        sets2[name] = labels2
     perms = {}
     for name in ("A", "B"):
         p = list(range(len(sets[name])))
         rng.shuffle(p)
         perms["P" + name] = p
-    alphabet = ["N:A", "N:B", "N:PA", "N:PB", "O:d1", "O:d2", "O:d3", "O:d4", "O:d5", "O:d6", "O:d7", "O:d8", "C", "C", "C", "C", "F:A", "F:B"]
+    alphabet = ["N:A", "N:B", "N:PA", "N:PB", "O:d1", "O:d2", "O:d3", "O:d4", "O:d5", "O:d6", "O:d7", "O:d8", "C", "C", "C", "C", "F:A", "F:B",
+                "M:A", "M:B"]
     h = [rng.choice(["N:A", "N:B", "N:PA"])]
     for _ in range(rng.randint(2, 11)):
         h.append(rng.choice(alphabet))
     h.append("C")
-    return h, sets, perms, scale
+    return h, sets, perms, scale, sets2
 
 
 def main():
@@ -209,14 +242,15 @@ def main():
     out = []
     if job.get("histories"):
         sets = job.get("sets") or DEFAULT_SETS
+        sets2 = job.get("sets2") or (DEFAULT_SETS2 if sets is DEFAULT_SETS else sets)
         perms = {"PA": list(reversed(range(len(sets["A"])))), "PB": list(reversed(range(len(sets["B"]))))}
         for h in job["histories"]:
-            out.append(play(h, sets, perms, 1))
+            out.append(play(h, sets, perms, 1, sets2))
     if job.get("random"):
         rng = random.Random(job["random"]["seed"])
         for _ in range(job["random"]["count"]):
-            h, sets, perms, scale = random_case(rng)
-            out.append(play(h, sets, perms, scale))
+            h, sets, perms, scale, sets2 = random_case(rng)
+            out.append(play(h, sets, perms, scale, sets2))
     PRISTINE.close()
     json.dump({"records": out}, sys.stdout)
 
